@@ -121,6 +121,14 @@ def h_metarize(E, N, C, which, excl, prop):
     elif prop == 'C04':
         T, ids, prms, ch = build(E, N, C, which, excl, K=2, sym=('k0', 'q', 'lb'), nan=False)
         kind, tab = run_steps(ch, which, ['_calculate_sligrolay_base_height', '_add_sligrolay_information'])
+    elif prop == 'C03C':
+        # concrete buffers chosen by forks: counts, totals and thresholds are then concrete on every path, so whatever
+        # arithmetic the code does on them runs in the interpreter's own binary64 (rounding of n/total*100 included)
+        T, ids, prms, ch = build(E, N, C, which, excl, K=2, sym=(), heights='flat')
+        prms['MAX_HITS_OKTA0'] = ch.prms['MAX_HITS_OKTA0'] = E.choose(2, 'k0c')
+        prms['MAX_HOLES_OKTA8'] = ch.prms['MAX_HOLES_OKTA8'] = E.choose(3, 'k8c')
+        kind, tab = run_steps(ch, which, ['_calculate_cloud_amount'])
+        prop = 'C03'
     elif prop == 'C04W':
         # the C04 clauses on the table of the whole metarize() (the steps share whatever metarize() hands from one to the next)
         T, ids, prms, ch = build(E, N, C, which, excl, K=2, sym=('k0', 'q', 'lb'), nan=False)
